@@ -39,7 +39,7 @@ def codes_for_handle(toks, h, upto):
     """codes the host told the guest for end `h` in toks[:upto], in order"""
     out = []
     for t in toks[:upto]:
-        m = re.fullmatch(r"(?:swrite|sread)(\d+):\d+:(\d+)", t) or re.fullmatch(r"(?:scw|scr|fwrite|fread|fcw|fcr)(\d+):(\d+)", t)
+        m = re.fullmatch(r"(?:swrite|sread)(\d+):\d+:(\d+):\d+", t) or re.fullmatch(r"(?:scw|scr|fwrite|fread|fcw|fcr)(\d+):(\d+)", t)
         if m and int(m.group(1)) == h:
             out.append(int(m.group(2))); continue
         m = (re.fullmatch(r"dlv\((\d+),(\d+)\)", t) or re.fullmatch(r"ev\(\d+,(\d+),(\d+)\)", t)
@@ -58,7 +58,7 @@ def after_done_class(trace):
     for i, t in enumerate(toks):
         if t != "!trap:copy-after-done":
             continue
-        m = re.fullmatch(r"(?:swrite|sread)(\d+):\d+:\d+", toks[i + 1]) if i + 1 < len(toks) else None
+        m = re.fullmatch(r"(?:swrite|sread)(\d+):\d+:\d+:\d+", toks[i + 1]) if i + 1 < len(toks) else None
         if not m:
             classes.add("stream-op-after-done-unclassified"); continue
         told = [c for c in codes_for_handle(toks, int(m.group(1)), i) if c != BLOCKED]
@@ -171,7 +171,7 @@ def run_chan(c, pid, want, only, what_map):
             mode = "cabi2" if r < 0.45 else "cabi1" if r < 0.8 else "export"
             out.append(rtlib.gen_chan_script(c.rng, mode, maxbody, stats, want, adapter, True, only))
         return out
-    plain = [l for l in corpus if not re.search(r"\b[SF][WR][brs]\dA\b", l)]
+    plain = [l for l in corpus if not re.search(r"\b[SF][WR][a-z]\dA\b", l)]
     withad = [l for l in corpus if l not in plain]
     batches = [("default", impl, plain + gen(n, False)), ("futures-stream", impl_fs, withad + gen(n_fs, True))]
     if not model or not impl or not impl_fs:
@@ -194,7 +194,7 @@ def run_chan(c, pid, want, only, what_map):
             for t in o.split(" "):
                 name = re.match(r"[A-Za-z.!-]*", t).group(0)
                 events[name] += 1
-                mm = re.fullmatch(r"(swrite|sread)\d+:\d+:(\d+)", t) or re.fullmatch(r"(fwrite|fread|scw|scr|fcw|fcr)\d+:(\d+)", t)
+                mm = re.fullmatch(r"(swrite|sread)\d+:\d+:(\d+):\d+", t) or re.fullmatch(r"(fwrite|fread|scw|scr|fcw|fcr)\d+:(\d+)", t)
                 if mm:
                     code = int(mm.group(2))
                     kind = "BLOCKED" if code == BLOCKED else ["COMPLETED", "DROPPED", "CANCELLED"][code % 16] + ("" if code < 16 else "+k")
